@@ -63,6 +63,12 @@ class Box:
     def own_snapshot(self):
         return list(self.own)
 
+    def share_own(self):
+        # hand out another proxy to the SAME object (it is hosted under the same id as long as it is still hosted)
+        if not hasattr(self, 'own'):
+            self.own = []
+        return managed_list(self.own)
+
     def make_own_dict(self):
         self.own_d = {}
         return managed_dict(self.own_d)
